@@ -1065,12 +1065,40 @@ func (s *BgpServer) getBestFromLocalCallback(peer *peer, rfList []bgp.Family, ad
 	if routeRefresh {
 		peer.routeRefreshInProgress.Lock()
 		defer peer.routeRefreshInProgress.Unlock()
-	} else {
-		peer.routeRefreshInProgress.RLock()
-		defer peer.routeRefreshInProgress.RUnlock()
+		// This pass sends what it computes (initial table transfer, route refresh,
+		// soft reset out): it must honour ADD-PATH send-max like the incremental path.
+		s.getBestFromLocalCallbackLocked(peer, rfList, addEOR, func(paths []*table.Path, filtered []*table.Path) {
+			fn(holdBackBeyondSendMax(peer, paths), filtered)
+		})
+		return
 	}
+	peer.routeRefreshInProgress.RLock()
+	defer peer.routeRefreshInProgress.RUnlock()
 
 	s.getBestFromLocalCallbackLocked(peer, rfList, addEOR, fn)
+}
+
+// holdBackBeyondSendMax drops from a full re-advertisement the paths that would take an
+// ADD-PATH peer beyond send-max paths for a prefix, counting what the peer has been sent
+// already, and marks them as held back by send-max the way the incremental path does.
+// The caller holds the peer's route-refresh write lock.
+func holdBackBeyondSendMax(peer *peer, paths []*table.Path) []*table.Path {
+	added := map[table.PathDestLocalKey]uint{}
+	out := paths[:0:0]
+	for _, p := range paths {
+		if p == nil || p.IsEOR() || p.IsWithdraw || !peer.isAddPathSendEnabled(p.GetFamily()) || peer.hasPathAlreadyBeenSent(p) {
+			out = append(out, p)
+			continue
+		}
+		key := p.GetDestLocalKey()
+		if uint(peer.getRoutesCount(p.GetFamily(), p.GetPrefix()))+added[key] >= uint(peer.getAddPathSendMax(p.GetFamily())) {
+			peer.setPathSendMaxFiltered(p)
+			continue
+		}
+		added[key]++
+		out = append(out, p)
+	}
+	return out
 }
 
 func (s *BgpServer) getBestFromLocalCallbackLocked(peer *peer, rfList []bgp.Family, addEOR bool, fn func([]*table.Path, []*table.Path)) {
